@@ -59,9 +59,15 @@ def base(f):
     ld.link_data_array(a, [-1])                       # a range dimension that is linked already
     ls = host.append_set_dimension()
     ls.link_data_array(a, [-1])
+    ba = b.create_data_array("ba", "t", data=np.array([True, False, True]))          # arrays of the other element kinds
+    ia = b.create_data_array("ia", "t", data=np.array([1, 2, 3], dtype=np.int16))
+    ua = b.create_data_array("ua", "t", data=np.array([[1, 2], [3, 4]], dtype=np.uint8))
+    txtp = s.create_property("txt", ["x", "y", "z"])   # text-valued things (HDF5 text cannot hold a NUL)
+    txta = b.create_data_array("txta", "t", dtype=nixio.DataType.String, data=["a", "b"])
+    txtf = b.create_data_frame("txtf", "t", col_dict={"n": str, "v": int}, data=[("a", 1)])
     a.metadata = s                                    # existing metadata links (a refused re-assignment must keep them)
     t.metadata = sub
-    return dict(df5=df5, host=host, ld=ld, ls=ls, f=f, b=b, b2=b2, a=a, m=m, foreign=foreign, p=p, t=t, mt=mt, s=s, sub=sub, pr=pr, g=g, src=src, d=d, sd=sd, setd=setd,
+    return dict(df5=df5, host=host, ld=ld, ls=ls, txtp=txtp, txta=txta, txtf=txtf, ba=ba, ia=ia, ua=ua, f=f, b=b, b2=b2, a=a, m=m, foreign=foreign, p=p, t=t, mt=mt, s=s, sub=sub, pr=pr, g=g, src=src, d=d, sd=sd, setd=setd,
                 ft=ft, df=df)
 
 
@@ -231,6 +237,10 @@ TRIALS = [
     ("DataArray.expansion_origin = 'x'", "inconsistent data type", setter("a", "expansion_origin", "x"), None),
     ("DataArray.append(text)", "inconsistent data type", lambda c: c["a"].append(np.array(["x", "y"])), None),
     ("DataArray.append([object()])", "unsupported data type", lambda c: c["a"].append([object()]), None),
+    ("DataArray.append(text) on a bool array", "inconsistent data type", lambda c: c["ba"].append(np.array(["yes", "no"])), None),
+    ("DataArray.append([None, True]) on a bool array", "unsupported data type", lambda c: c["ba"].append([None, True]), None),
+    ("DataArray.append(text) on an int16 array", "inconsistent data type", lambda c: c["ia"].append(np.array(["x"])), None),
+    ("DataArray.append([object()]) on a uint8 matrix", "unsupported data type", lambda c: c["ua"].append([[object(), 1]], axis=0), None),
     ("DataArray.append(other rank)", "mismatching shape", lambda c: c["a"].append(np.zeros((2, 2))), None),
     ("DataArray.append(mismatching extent)", "mismatching shape", lambda c: c["m"].append(np.zeros((1, 5)), axis=0), None),
     ("Block.create_tag(name = id of an existing tag, position='abc')", "inconsistent data type",
@@ -246,6 +256,10 @@ TRIALS = [
     ("DataArray.metadata = <section of another file>", "wrong block", lambda c: cross_file_metadata(c, "a"), None),
     ("Block.metadata = <section of another file>", "wrong block", lambda c: cross_file_metadata(c, "b"), None),
     ("Tag.metadata = <section of another file>", "wrong block", lambda c: cross_file_metadata(c, "t"), None),
+    ("Property.values = [text with a NUL]", "unsupported data type", setter("txtp", "values", ["a\x00b"]), None),
+    ("Property.extend_values([text with a NUL])", "unsupported data type", lambda c: c["txtp"].extend_values(["a\x00b"]), None),
+    ("DataArray.append([text with a NUL]) on a text array", "unsupported data type", lambda c: c["txta"].append(["a\x00b"]), None),
+    ("DataFrame.append_rows(text with a NUL)", "unsupported data type", lambda c: c["txtf"].append_rows([("a\x00b", 2)]), None),
     ("DataFrame.append_rows(row of 3 values)", "mismatching shape", lambda c: c["df"].append_rows([(1, 2.0, 3)]), None),
     ("DataFrame.append_column(wrong length)", "mismatching shape", lambda c: c["df"].append_column([1], "z", datatype=int), None),
     ("DataFrame.write_cell(row 9)", "out-of-range index", lambda c: c["df"].write_cell(1, position=(9, 0)), None),
